@@ -1121,6 +1121,23 @@ func (d *Driver) end(j *job) {
 		writeFile(path.Join(md, "_stage_defs"), b)
 		writeFile(path.Join(md, "_errors"), []byte("injected failure of "+j.key+" after it had written _stage_defs"))
 		d.journal(j, "errors")
+	case "badres-defs":
+		// the chunk definitions are there, but the resource request of one chunk is not a
+		// number (of the join, if there are no chunks)
+		chunks := make([]interface{}, j.inv.NChunks)
+		for i := range chunks {
+			chunks[i] = map[string]interface{}{"ci": i}
+		}
+		join := map[string]interface{}{}
+		if len(chunks) > 0 {
+			chunks[len(chunks)-1] = map[string]interface{}{"ci": len(chunks) - 1, "__mem_gb": "lots"}
+		} else {
+			join["__mem_gb"] = "lots"
+		}
+		b, _ := json.Marshal(map[string]interface{}{"chunks": chunks, "join": join})
+		writeFile(path.Join(md, "_stage_defs"), b)
+		writeFile(path.Join(md, "_complete"), []byte("done"))
+		d.journal(j, "complete")
 	case "bad-stage-defs":
 		writeFile(path.Join(md, "_stage_defs"), []byte(`{"chunks": 7}`))
 		writeFile(path.Join(md, "_complete"), []byte("done"))
